@@ -753,6 +753,9 @@ func c04Run(c *engine.Ctx) {
 				tokens = []string{`{`, `]`, `,`, `"x"`, `-1e999`, `null`, `{"type":"Note"}`}
 			}
 			c04JSONDeviations(seed, step, shortest[string(seed)] && e.owner == "", tokens, func(kind string, in []byte) {
+				if n&1023 == 1023 && t.Expired() {
+					return // the tier deadline passed in the middle of a long case (token pairs): the rest of it is not run
+				}
 				c04Try(t, e, kind, in)
 				n++
 			})
@@ -849,6 +852,9 @@ func c04Run(c *engine.Ctx) {
 		}, func(t *engine.T) {
 			n := int64(0)
 			c04GobDeviations(seed, !quick, func(kind string, in []byte) {
+				if n&1023 == 1023 && t.Expired() {
+					return // the tier deadline passed in the middle of a long case (256 values at every position of a long seed)
+				}
 				c04Try(t, e, kind, in)
 				n++
 			})
